@@ -218,7 +218,8 @@ Proof.
     repeat (first [helper_step | crunch_step]; mstep);
     subst R;
     repeat match goal with H : _ = true |- _ => rewrite H | H : _ = false |- _ => rewrite H end;
-    cbn [andb]; repeat (crunch_step; cbn [andb]); reflexivity.
+    rewrite ?Bool.andb_false_r; cbn [andb];
+    repeat (crunch_step; rewrite ?Bool.andb_false_r; cbn [andb]); reflexivity.
 Qed.
 
 (* ---------- priority 2: TimeZone.__init__ ---------- *)
@@ -440,7 +441,7 @@ Ltac q_tac :=
   cbv beta iota delta [oq_equiv dfl_h dfl_m dfl_s qadd]; rewrite ?Qred_correct;
   repeat match goal with H : qis_int ?x = true |- context [inject_Z (py_int_Q ?x)] =>
            rewrite (py_int_Q_int x H) end;
-  try reflexivity.
+  try reflexivity; try lra.
 Ltac field_tac :=
   cbv beta iota delta [dfl_h dfl_m dfl_s];
   repeat (crunch_step; cbn [is_none andb negb orb]); try reflexivity; try q_tac; try exact Logic.I.
